@@ -1,5 +1,5 @@
 (* C19: the two recorded findings, exhibited on the model. *)
-From Icv Require Import Base.Tac Sandbox.SbModel Sandbox.SbFacts Sandbox.SbFactsProofs Sandbox.SbProofs.
+From Icv Require Import Base.Tac Sandbox.SbModel Sandbox.SbFacts Sandbox.SbProofs.
 From Coq Require Import NArith String.
 Local Open Scope N_scope.
 
@@ -18,23 +18,3 @@ Lemma sb_const_refuted :
   sb_protected (snd (sb_eval sb_pinned_facts 3 sb_filter_frame (SbSetConst sb_n_F (SbLiteral SbLNum)) (sb_st0 [])))
   <> sb_protected (sb_st0 []).
 Proof. vm_compute. discriminate. Qed.
-
-(* ... and with the current facts the same program is refused and nothing changes *)
-Lemma sb_const_fixed :
-  sb_eval sb_cur_facts 3 sb_filter_frame (SbSetConst sb_n_F (SbLiteral SbLNum)) (sb_st0 [])
-  = (SbRErr SbESandbox, sb_st0 []).
-Proof. vm_compute. reflexivity. Qed.
-
-(* F-C19-b: a sandboxed expression reads the global constant TicketSalt, which /v1/variables hides *)
-Lemma sb_ticketsalt_refuted :
-  let s := sb_st0 [(sb_n_TicketSalt, SbVOpaque)] in
-  sb_no_hidden_global sb_cur_facts s = false /\
-  fst (sb_eval sb_cur_facts 3 sb_filter_frame (SbVariable sb_n_TicketSalt) s) = SbROk SbVOpaque /\
-  sbs_reads (snd (sb_eval sb_cur_facts 3 sb_filter_frame (SbVariable sb_n_TicketSalt) s)) = [SbRdGlobal sb_n_TicketSalt].
-Proof. vm_compute. repeat split; reflexivity. Qed.
-
-Lemma sb_cur_premises : sb_premises sb_cur_facts = true.
-Proof. vm_compute. reflexivity. Qed.
-
-Lemma sb_filter_frame_ok : sb_frame_ok sb_cur_facts sb_filter_frame = true.
-Proof. vm_compute. reflexivity. Qed.
